@@ -97,6 +97,14 @@ package server
 // loadedMu in the same iteration; processPending is the only inserter).
 //@ func (*Scheduler).processPending
 //@   assert-at call loadFn : runner == nil
+// C02 (every request gets its reply provided the requests ahead of it complete): before the
+// pending loop parks on unloadedCh, the runner chosen for eviction is certain to produce an
+// unloaded event without any further help: its keep-alive is cancelled (sessionDuration == 0,
+// no timer pending), so the finished event of its last user expires it at once, and if it is
+// already idle the expiry has been posted (added after seeded change C02-seed2).
+//@   ghost-at after call sync.(*Mutex).Lock : ghost_posted := 0
+//@   ghost-at send expiredCh : ghost_posted := 1
+//@   assert-at call sync.(*Mutex).Unlock : (runnerToExpire != nil && arg0 == &runnerToExpire.refMu) ==> (runnerToExpire.sessionDuration == 0 && runnerToExpire.expireTimer == nil && (runnerToExpire.refCount == 0 ==> ghost_posted == 1))
 
 // C02: exactly one reply on this path too.
 //@ func (*Scheduler).processCompleted$1
@@ -106,7 +114,18 @@ package server
 
 //@ func (*Scheduler).findRunnerToUnload
 //@ func (*Scheduler).unloadAllRunners
+// C11 (placement: a new runner is started only where it fits in the memory the loaded models
+// leave free): the memory left free is computed from EVERY loaded runner. r.ghost_acct records
+// that r's per-GPU prediction was asked for and added; after the loop every loaded runner
+// that has a server (llama != nil) has been accounted for, unless there are no GPUs.
+// (added after seeded change C11-seed2, which skipped runners whose lock was busy)
 //@ func (*Scheduler).updateFreeSpace
+//@   ghost-at after call EstimatedVRAMByGPU : r.ghost_acct := 1
+//@   loop 1 invariant forall k string :: visited(k) ==> (s.loaded[k] == nil || s.loaded[k].llama == nil || len(allGpus) == 0 || s.loaded[k].ghost_acct == 1)
+//@   loop 1 invariant forall k string :: has(s.loaded, k) ==> rangehad(k)
+//@   loop 2 invariant rangeindex >= 0 ==> r.ghost_acct == 1
+//@   loop 2 invariant forall k string :: visited(k) && k != rangekey ==> (s.loaded[k] == nil || s.loaded[k].llama == nil || len(allGpus) == 0 || s.loaded[k].ghost_acct == 1)
+//@   assert-at call sync.(*Mutex).Unlock : arg0 == &s.loadedMu ==> (forall k string :: has(s.loaded, k) ==> (s.loaded[k] == nil || s.loaded[k].llama == nil || len(allGpus) == 0 || s.loaded[k].ghost_acct == 1))
 //@ func (*Scheduler).filterGPUsWithoutLoadingModels
 //@ func (*runnerRef).needsReload
 //@   assume-at entry : runner.numParallel >= 1      -- set to max(1, n) in load before the runner is published, never changed
